@@ -135,7 +135,7 @@ theorem replay_db (fixed : Bool) (u : User) (held : Nat → List Flav) (wm : Wor
 the view it loaded. -/
 theorem step_db (fixed : Bool) (w : World) (u : User) (c : Cmd) (crash : Option Nat) :
     ∃ (m : Spec) (dirs : List DirEnt) (ex : List Extra) (es : List Eff),
-      es.Sublist (run w.nst c ⟨w.db, m, dirs, [], ex⟩).2.tr ∧
+      es.Sublist (run w.nst c ⟨w.db, m, dirs, [], ex, w.tfiles⟩).2.tr ∧
       (stepG fixed w (.run u c crash)).w.db = es.foldl (fun c e => applyDb e c) w.db := by
   simp only [stepG]
   obtain ⟨hdb, hdirs, _⟩ := load_db w u c.self
@@ -146,11 +146,11 @@ theorem step_db (fixed : Bool) (w : World) (u : User) (c : Cmd) (crash : Option 
   rw [hdb]
   cases crash with
   | none =>
-    obtain ⟨es', hs, he⟩ := replay_db fixed u (heldOf fl) (w1, m) (run w.nst c ⟨w.db, m, w1.dirs, [], w1.extras⟩).2.tr none
+    obtain ⟨es', hs, he⟩ := replay_db fixed u (heldOf fl) (w1, m) (run w.nst c ⟨w.db, m, w1.dirs, [], w1.extras, w.tfiles⟩).2.tr none
     exact ⟨es', by simpa using hs, by rw [he, hdb]⟩
   | some k =>
-    obtain ⟨es', hs, he⟩ := replay_db fixed u (heldOf fl) (w1, m) (cutAfterDb (run w.nst c ⟨w.db, m, w1.dirs, [], w1.extras⟩).2.tr k).1
-      (cutAfterDb (run w.nst c ⟨w.db, m, w1.dirs, [], w1.extras⟩).2.tr k).2
+    obtain ⟨es', hs, he⟩ := replay_db fixed u (heldOf fl) (w1, m) (cutAfterDb (run w.nst c ⟨w.db, m, w1.dirs, [], w1.extras, w.tfiles⟩).2.tr k).1
+      (cutAfterDb (run w.nst c ⟨w.db, m, w1.dirs, [], w1.extras, w.tfiles⟩).2.tr k).2
     exact ⟨es', hs.trans (cutAfterDb_sublist _ _), by rw [he, hdb]⟩
 
 theorem step_rmCache_db (fixed : Bool) (w : World) (u : User) (s : Nat) (f : Flav) :
@@ -184,7 +184,7 @@ theorem step_of_empty_trace (fixed : Bool) (w : World) (u : User) (c : Cmd) (cra
   generalize load w u c.self = l at hdb hdirs ht hex
   obtain ⟨m, fl, w1⟩ := l
   dsimp only at hdb hdirs ht hex ⊢
-  have htr := h ⟨w1.db, m, w1.dirs, [], w1.extras⟩ rfl
+  have htr := h ⟨w1.db, m, w1.dirs, [], w1.extras, w.tfiles⟩ rfl
   rw [htr]
   cases crash with
   | none => exact ⟨hdb, hdirs, ht, hex⟩
